@@ -137,6 +137,10 @@ fn shader_stages(out: &mut Vec<Outcome>) {
         ok &= sa.union(sb).bits == ra.union(rb).bits();
         ok &= sa.contains(sb) == ra.contains(rb);
         ok &= (sa == sb) == (ra == rb);
+        ok &= sa.intersection(sb).bits == ra.intersection(rb).bits();
+        ok &= sa.difference(sb).bits == ra.difference(rb).bits();
+        ok &= sa.intersects(sb) == ra.intersects(rb);
+        ok &= sa.is_empty() == ra.is_empty() && sa.bits() == ra.bits() && S::empty().bits == R::empty().bits();
         let sc: S = vec![sa, sb].into_iter().collect();
         let rc: R = vec![ra, rb].into_iter().collect();
         ok &= sc.bits == rc.bits();
@@ -144,7 +148,7 @@ fn shader_stages(out: &mut Vec<Outcome>) {
     let e: S = Vec::<S>::new().into_iter().collect();
     let re: R = Vec::<R>::new().into_iter().collect();
     ok &= e.bits == re.bits();
-    out.push(Outcome { name: "stages.union-contains-eq-collect (all 64 pairs)".into(), ok, detail: String::new() });
+    out.push(Outcome { name: "stages.union-contains-eq-collect-intersection-difference-intersects-is_empty-bits-empty (all 64 pairs)".into(), ok, detail: String::new() });
 }
 
 /// The spec functions that transcribe dependency functions (spec/lib, marked `//@conform`), compiled as plain Rust from the
